@@ -330,7 +330,25 @@ func (ab actionsBuilder) prepareProcessorActions(oldConfig, newConfig config.Pro
 		return nil
 	}
 
-	// the processor changed, and all parts of a processor are updateable
+	if oldConfig.Condition != newConfig.Condition {
+		// The condition is fixed when the processor instance is created (the
+		// processor service has no way to change it afterwards), so a changed
+		// condition means replacing the processor.
+		return []action{
+			deleteProcessorAction{
+				cfg:              oldConfig,
+				parent:           parent,
+				processorService: ab.processorService,
+			},
+			createProcessorAction{
+				cfg:              newConfig,
+				parent:           parent,
+				processorService: ab.processorService,
+			},
+		}
+	}
+
+	// the processor changed, and all other parts of a processor are updateable
 	return []action{updateProcessorAction{
 		oldConfig:        oldConfig,
 		newConfig:        newConfig,
